@@ -93,4 +93,16 @@ CLAIMS["C17"] = {
     "design_ref": "DESIGN.md §4 C17",
 }
 
+CLAIMS["C15"] = {
+    "technique": "decision-table extraction (path enumeration with term substitution) + constant and construction-site checks",
+    "text": "Decides six structural obligations whose conjunction implies the statement by the hand proof in DESIGN.md: MAX == 2^31-1 and "
+            "LONG_BIT == 0x80 (O1); TryFrom<u32> fails exactly for v > MAX and TryFrom<usize> delegates through u32 (O2); VarInt values are "
+            "constructed only at range-preserving sites (O3); decoder and encoder use the same LONG_BIT for test/set/clear, the short form "
+            "exactly below it, big-endian on both sides (O4); the decoder reads 1 then 3 bytes through read_exact only, so truncation yields "
+            "its UnexpectedEof (O5); the encoder reports the length of the very array it wrote (O6). The implication itself is not "
+            "machine-checked and no value is enumerated: the bijection as a computed fact is NOT decided.",
+    "note": "read_exact / write_all contracts of std::io trusted.",
+    "design_ref": "DESIGN.md §4 C15",
+}
+
 PENDING_REASON = "rules for this property are not built yet (build in progress; DESIGN.md §7 gives the order)"
